@@ -2,8 +2,15 @@
 Pipeline: C08_Gen (TLC: enumerate (tree, map) pairs + check the substitution lemma,
 the transcribed mappers and the negative controls on the model) -> drive (real
 substitute / SubstitutionMapper / CachedSubstitutionMapper, recording result trees
-and per-position is-flags) -> C08_Judge (TLC judges every record).  Python builds
-objects, calls, serialises and groups verdicts; it decides nothing."""
+and per-position is-flags, and the argument objects before / after each call) ->
+C08_Judge (TLC judges every record).
+Second family (S-layer): C08_Hist (TLC: histories of substitute() / long-lived mapper
+calls that share dict and expression objects; the caller's dicts are part of the
+state; invariants CallerMapsUnchanged / EveryCallMeansItsArguments; negative controls
+merge-in-place / shared default) -> drive_hist (replay on real objects, after every
+event the result and the contents of every dict object) -> C08_HJudge (TLC steps the
+machine along the recorded events).  Python builds objects, calls, serialises and
+groups verdicts; it decides nothing."""
 from __future__ import annotations
 
 import concurrent.futures as cf
@@ -127,6 +134,35 @@ def make_map(sg, memo=None, only=None):
     return d
 
 
+def entries_of(d):
+    """A real dict -> the entry sequence of C08_Subst.tla (insertion order)."""
+    out = []
+    for k, v in d.items():
+        if isinstance(k, str):
+            out.append({"kf": "name", "name": k, "val": ser.to_json(v)})
+        else:
+            out.append({"kf": "expr", "key": ser.to_json(k), "val": ser.to_json(v)})
+    return out
+
+
+def snap_args(e_obj, d_obj):
+    """The argument objects of one call as they are right now (None: not serialisable)."""
+    try:
+        return {"e": ser.to_json(e_obj), "sg": entries_of(d_obj) if d_obj is not None else []}
+    except ser.Unserialisable:
+        return None
+
+
+def mod_record(before, after):
+    """Compression only: equal serialisations are not shipped twice; when they differ TLC
+    compares them."""
+    if before is None or after is None:
+        return {"r": "unser"}
+    if before == after:
+        return {"r": "same"}
+    return {"r": "mod", "e0": before["e"], "sg0": before["sg"], "e1": after["e"], "sg1": after["sg"]}
+
+
 # ------------------------------------------------------------------- driving
 def drive_case(case, extra):
     import warnings
@@ -136,45 +172,53 @@ def drive_case(case, extra):
     e, sg = case["e"], case["sg"]
     obs = {}
 
-    def attempt(label, thunk):
+    mods = []
+
+    def attempt(label, thunk, e_obj, d_obj):
         box = {}
 
         def run():
             box["res"] = thunk()
             return box["res"]
+        before = snap_args(e_obj, d_obj)
         try:
             rec = ser.obj_to_json(run)
         except RecursionError:      # an observation like any other exception class
             rec = {"r": "err", "v": {"k": "err", "e": "RecursionError", "a": ""}}
         obs[label] = box.get("res")
+        mods.append(mod_record(before, snap_args(e_obj, d_obj)))
         return rec
 
     with warnings.catch_warnings():
         warnings.simplefilter("ignore")
         # 1 plain mapper, fresh objects everywhere
-        e1 = build(e)
-        r1 = attempt("p", lambda: SubstitutionMapper(make_subst_func(make_map(sg)))(e1))
+        e1, m1 = build(e), make_map(sg)
+        r1 = attempt("p", lambda: SubstitutionMapper(make_subst_func(m1))(e1), e1, m1)
         # 2 memoizing mapper, equal subtrees shared
         memo = {}
         e2 = build(e, memo)
         m2 = make_map(sg, memo)
-        r2 = attempt("c", lambda: CachedSubstitutionMapper(make_subst_func(m2))(e2))
+        r2 = attempt("c", lambda: CachedSubstitutionMapper(make_subst_func(m2))(e2), e2, m2)
         # 3 the default entry point
-        r3 = attempt("s", lambda: substitute(build(e), make_map(sg)))
+        e3, m3 = build(e), make_map(sg)
+        r3 = attempt("s", lambda: substitute(e3, m3), e3, m3)
         # 4 name keys as keyword assignments, the rest as the dict
         names = [i for i, en in enumerate(sg) if en["kf"] == "name"]
         if names:
             rest = [i for i in range(len(sg)) if i not in names]
             kw = {sg[i]["name"]: build(sg[i]["val"]) for i in names}
+            e4 = build(e)
             if rest:
-                r4 = attempt("k", lambda: substitute(build(e), make_map(sg, only=rest), **kw))
+                m4 = make_map(sg, only=rest)
+                r4 = attempt("k", lambda: substitute(e4, m4, **kw), e4, m4)
             else:
-                r4 = attempt("k", lambda: substitute(build(e), **kw))
+                r4 = attempt("k", lambda: substitute(e4, **kw), e4, None)
         else:
             r4 = {"r": "na"}
+            mods.append({"r": "same"})
         # 5 the entry point with the plain mapper class
-        r5 = attempt("q", lambda: substitute(build(e), make_map(sg),
-                                             mapper_cls=SubstitutionMapper))
+        e5, m5 = build(e), make_map(sg)
+        r5 = attempt("q", lambda: substitute(e5, m5, mapper_cls=SubstitutionMapper), e5, m5)
     same_p, same_c = [], []
     if r1["r"] != "err":
         same_paths(e1, obs["p"], [], same_p)
@@ -183,7 +227,79 @@ def drive_case(case, extra):
     res = [r1]
     for r in (r2, r3, r4, r5):
         res.append({"r": "same"} if r["r"] == "ok" and r == r1 else r)
-    return {"id": case["id"], "e": e, "sg": sg, "res": res, "same_p": same_p, "same_c": same_c}
+    return {"id": case["id"], "e": e, "sg": sg, "res": res, "same_p": same_p, "same_c": same_c,
+            "mod": mods}
+
+
+def drive_hist(case, extra):
+    """C08_Hist: replay one history on real objects that live as long as the history: the
+    caller's dicts (one object per slot), the expression objects (one object per distinct
+    tree, equal subtrees shared - a session in which `x = var("x")` is kept around), one
+    long-lived plain and one long-lived memoizing mapper per dict (made at first use from
+    make_subst_func(d); dropped when the caller itself puts a new entry into d, as a memo
+    over an edited map has no stated meaning).  After every event: the result, the contents
+    of EVERY dict object, the expression argument."""
+    import warnings
+
+    from pymbolic.mapper.substitutor import (CachedSubstitutionMapper, SubstitutionMapper,
+                                             make_subst_func, substitute)
+    memo = {}
+    dicts = [make_map(sg, memo) for sg in case["maps"]]
+    mappers = {}
+    obs = []
+
+    def snap_maps():
+        out = []
+        for d in dicts:
+            try:
+                out.append({"r": "ok", "m": entries_of(d)})
+            except ser.Unserialisable:
+                out.append({"r": "unser"})
+        return out
+
+    def snap_tree(o):
+        try:
+            return {"r": "ok", "e": ser.to_json(o)}
+        except ser.Unserialisable:
+            return {"r": "unser"}
+
+    with warnings.catch_warnings():
+        warnings.simplefilter("ignore")
+        for ev in case["hist"]:
+            if ev["op"] == "put":
+                en = ev["en"]
+                k = en["name"] if en["kf"] == "name" else build(en["key"], memo)
+                dicts[ev["d"] - 1][k] = build(en["val"], memo)
+                for key in [key for key in mappers if key[1] == ev["d"]]:
+                    del mappers[key]
+                obs.append({"maps": snap_maps()})
+                continue
+            e_obj = build(ev["e"], memo)
+            d_obj = dicts[ev["d"] - 1] if ev["d"] else None
+            kw = {en["name"]: build(en["val"], memo) for en in ev["kw"]}
+            via = ev["via"]
+            if via in ("p", "c"):
+                if (via, ev["d"]) not in mappers:
+                    cls = SubstitutionMapper if via == "p" else CachedSubstitutionMapper
+                    mappers[via, ev["d"]] = cls(make_subst_func(d_obj))
+                m = mappers[via, ev["d"]]
+
+                def thunk(m=m, e_obj=e_obj):
+                    return m(e_obj)
+            else:
+                extra_kw = {"mapper_cls": SubstitutionMapper} if via == "q" else {}
+                if d_obj is None:
+                    def thunk(e_obj=e_obj, kw=kw, extra_kw=extra_kw):
+                        return substitute(e_obj, **extra_kw, **kw)
+                else:
+                    def thunk(e_obj=e_obj, d_obj=d_obj, kw=kw, extra_kw=extra_kw):
+                        return substitute(e_obj, d_obj, **extra_kw, **kw)
+            try:
+                res = ser.obj_to_json(thunk)
+            except RecursionError:
+                res = {"r": "err", "v": {"k": "err", "e": "RecursionError", "a": ""}}
+            obs.append({"res": res, "maps": snap_maps(), "arg": snap_tree(e_obj)})
+    return {"id": case["id"], "maps": case["maps"], "hist": case["hist"], "obs": obs}
 
 
 # ----------------------------------------------------------------- verdicts
@@ -203,6 +319,38 @@ def signature(rec, v):
             "keys": key_forms(rec["sg"])}
 
 
+def hist_signature(rec, v):
+    """Attribution for a history verdict: the failing clause, how the failing call passed
+    its replacements, and what had happened to the same dict object before."""
+    k = v.get("call", 0)
+    ev = rec["hist"][k - 1] if k else {"op": "none"}
+    if ev["op"] != "call":
+        return {"clause": v["v"], "dev": "none", "why": v.get("why", ""), "via": ev["op"],
+                "args": ev["op"], "prior": ""}
+    args = "+".join(([] if not ev["d"] else ["dict"]) + ([] if not ev["kw"] else ["kw"])) or "nothing"
+    prior = set()
+    for pe in rec["hist"][:k - 1]:
+        if pe["d"] == ev["d"]:
+            prior.add("put" if pe["op"] == "put" else ("kw-call" if pe["kw"] else "call"))
+    return {"clause": v["v"], "dev": "none", "why": v.get("why", ""), "via": ev["via"],
+            "args": args, "prior": "+".join(sorted(prior))}
+
+
+def classify_hist(out, verdicts, byid):
+    drift = out.extra.setdefault("drift_kinds", {})
+    for v in verdicts:
+        if v["v"] == "SKIP":
+            out.skipped += v.get("n", 1)
+        elif v["v"] == "DRIFT":
+            out.drift += 1
+            drift[v["what"]] = drift.get(v["what"], 0) + 1
+        else:
+            rec = byid[v["id"]]
+            out.fail(hist_signature(rec, v),
+                     {"case": {"id": rec["id"], "maps": rec["maps"], "hist": rec["hist"]},
+                      "recorded": rec, "verdict": v})
+
+
 def classify(out, verdicts, byid):
     drift = {}
     for v in verdicts:
@@ -216,10 +364,75 @@ def classify(out, verdicts, byid):
             out.fail(signature(rec, v),
                      {"case": {"id": rec["id"], "e": rec["e"], "sg": rec["sg"]},
                       "recorded": rec, "verdict": v})
-    out.extra["drift_kinds"] = drift
+    out.extra.setdefault("drift_kinds", {}).update(drift)
 
 
-def judge(out, recs, wd):
+def judge_hist(recs, wd):
+    """Trace validation of the driven histories (TLC steps C08_Hist's machine along them)."""
+    shards = kit.write_shards(recs, wd / "trace", "c08h", 4000)
+    return kit.judge_shards("C08_HJudge", "C08_HJudge", shards)
+
+
+def corrupt_hist(rec):
+    """Binding control: a dict object that holds one entry more than its owner put there."""
+    ob = rec["obs"][0]
+    if ob["maps"][0]["r"] != "ok":
+        return None
+    ob["maps"][0]["m"].append({"kf": "name", "name": "q9", "val": {"t": "Var", "name": "x"}})
+    return rec
+
+
+HIST_NEG = [("C08_Hist_neg_inplace_maps", ["CallerMapsUnchanged"], []),
+            ("C08_Hist_neg_inplace_calls", ["EveryCallMeansItsArguments"], []),
+            ("C08_Hist_neg_shareddefault", ["EveryCallMeansItsArguments"], ["CallerMapsUnchanged"])]
+
+
+def hist_family(tier, seed, wd):
+    """S-layer: model-check + generate the histories, refute the negative controls, drive,
+    validate the traces.  Returns everything the main thread needs to classify."""
+    t0 = time.time()
+    runs = []
+    gen = kit.run_tlc("C08_Hist", "C08_Hist_quick", workers=4, heap="2g")
+    kit.require_clean(gen, "C08_Hist model check (histories, depth 2)")
+    runs.append(gen)
+    hists = [p for p in gen.printed() if "hist" in p]
+    if tier == "thorough":
+        deep = kit.run_tlc("C08_Hist", "C08_Hist_thorough", workers=8)
+        kit.require_clean(deep, "C08_Hist model check (histories, depth 3 with puts)")
+        runs.append(deep)
+        hists += [p for p in deep.printed() if "hist" in p]
+        rnd = kit.run_tlc("C08_Hist", "C08_Hist_sim", simulate="num=3000", depth=8, seed=seed,
+                          workers=4, heap="2g")
+        kit.require_clean(rnd, "C08_Hist random histories (-simulate)")
+        runs.append(rnd)
+        hists += [p for p in rnd.printed() if "hist" in p]
+    neg = {}
+    for cfg, must, must_not in HIST_NEG:
+        r = kit.run_tlc("C08_Hist", cfg, workers=2, heap="2g", tag=f"C08_Hist.{cfg}")
+        if any(i not in r.invariant_violated for i in must) or \
+                any(i in r.invariant_violated for i in must_not):
+            tail = "\n".join(r.out.splitlines()[-25:])
+            raise kit.MachineryError(f"negative control {cfg}: expected TLC to refute {must} "
+                                     f"(and not {must_not}), got {r.invariant_violated}\n{tail}")
+        neg[cfg] = "refuted: " + ", ".join(must)
+    uniq, seen = [], set()
+    for h in hists:
+        k = json.dumps([h["maps"], h["hist"]], sort_keys=True)
+        if k not in seen:
+            seen.add(k)
+            uniq.append({"id": len(uniq), "maps": h["maps"], "hist": h["hist"]})
+    if not uniq:
+        raise kit.MachineryError("C08_Hist printed no history")
+    kit.log(f"C08: TLC checked {sum(r.distinct for r in runs)} history states "
+            f"(CallerMapsUnchanged, EveryCallMeansItsArguments), generated {len(uniq)} histories, "
+            f"{len(neg)} negative controls refuted ({time.time() - t0:.1f}s, in background)")
+    (wd / "hists.json").write_text(json.dumps(uniq))
+    recs = kit.drive("harness.c08", "drive_hist", uniq, None, procs=8, chunk=400)
+    verdicts, st, tr = judge_hist(recs, wd)
+    nctl = kit.corruption_control("C08_HJudge", "C08_HJudge", recs, corrupt_hist, wd, want=3)
+    return {"runs": runs, "recs": recs, "verdicts": verdicts, "states": st, "trans": tr,
+            "neg": neg, "controls": nctl}
+
     shards = kit.write_shards(recs, wd / "trace", "c08", 5000)
     verdicts, st, tr = kit.judge_shards("C08_Judge", "C08_Judge", shards)
     out.states += st
@@ -262,6 +475,8 @@ def collect(res, out):
 
 def run(tier, seed, out):
     wd = kit.fresh_workdir("C08")
+    hbg = cf.ThreadPoolExecutor(max_workers=1)
+    hfam = hbg.submit(hist_family, tier, seed, wd)
     with cf.ThreadPoolExecutor(max_workers=1) as bg:
         neg = bg.submit(negative_controls, BUGS_QUICK if tier == "quick" else BUGS_ALL)
         gen = kit.run_tlc("C08_Gen", f"C08_Gen_{tier}", workers=max(4, kit.NCPU - 4))
@@ -299,9 +514,28 @@ def run(tier, seed, out):
     for r in recs:
         out.note_case([r["e"], r["sg"]],
                       nontrivial=bool(r["sg"]) and r["e"]["t"] not in ("Var", "Const"))
+    # the histories (S-layer), run in the background since the start
+    try:
+        hf = hfam.result()
+    finally:
+        hbg.shutdown(wait=False)
+    for r in hf["runs"]:
+        out.add_tlc(r)
+    out.states += hf["states"]
+    out.transitions += hf["trans"]
+    out.traces += len(hf["recs"])
+    out.evaluations += sum(sum(1 for ev in r["hist"] if ev["op"] == "call") for r in hf["recs"])
+    classify_hist(out, hf["verdicts"], {r["id"]: r for r in hf["recs"]})
+    for r in hf["recs"]:
+        out.note_case([r["maps"], r["hist"]], nontrivial=True)
+    out.extra["histories_driven"] = len(hf["recs"])
+    out.extra["history_negative_controls"] = hf["neg"]
+    out.extra["history_binding_controls_rejected"] = hf["controls"]
+    hs = hf["recs"][len(hf["recs"]) // 2]
     step = max(1, len(recs) // 3)
     out.samples = [{"tree": r["e"], "map": r["sg"], "recorded": r["res"],
                     "identical_positions_plain": r["same_p"]} for r in recs[::step][:3]]
+    out.samples.append({"dicts": hs["maps"], "history": hs["hist"], "recorded": hs["obs"]})
     out.extra["pairs_exhaustive"] = nexh
     out.extra["pairs_driven"] = len(recs)
     out.extra["design_level_classes_on_model"] = design
@@ -311,7 +545,12 @@ def run(tier, seed, out):
                 "mentioning other keys); pairs in which nothing is replaced are driven for three maps "
                 "only; thorough adds -simulate random deeper trees; one case = one pair through 5 entry "
                 "points, judged in 4 environments + identity flags; non-trivial = non-empty map and a "
-                "composite tree; distinct by canonical JSON digest")
+                "composite tree; distinct by canonical JSON digest.  Histories (C08_Hist): 6 pairs of "
+                "caller dicts x every sequence of 2 calls (quick; thorough: + 3 events with the "
+                "caller's own puts, last call on an object used before, + -simulate sequences of 5) "
+                "over {no dict, dict 1, dict 2} x keyword sets x trees x {substitute with the memoizing "
+                "/ the plain class, one long-lived plain / memoizing mapper per dict}; one case = one "
+                "history, every call judged in 4 environments, every dict object judged after every event")
     out.exhaustive = True
     out.assumptions += [
         "CPython numeric semantics as transcribed in PyNum.tla / Eval.tla",
@@ -319,13 +558,26 @@ def run(tier, seed, out):
         "Substitution / Derivative nodes have no meaning in Eval: value clause skipped below them",
         "identity under the memoizing mapper is judged on inputs whose equal subtrees are shared objects",
         "when a map holds both a name and the Variable of that name the Variable entry applies "
-        "(the documented look-up order)"]
+        "(the documented look-up order)",
+        "histories: a key is never given twice in one call (dict and keyword argument); a long-lived "
+        "mapper is discarded when the caller itself edits the dict it was made from"]
 
 
 def replay(path, out):
     wd = kit.fresh_workdir("C08")
     d = json.loads(open(path).read())
     case = d["detail"]["case"]
+    if "hist" in case:
+        recs = kit.drive("harness.c08", "drive_hist", [case], None)
+        out.evaluations += sum(1 for ev in case["hist"] if ev["op"] == "call")
+        vs, st, tr = judge_hist(recs, wd)
+        out.states += st
+        out.transitions += tr
+        out.traces += 1
+        classify_hist(out, vs, {r["id"]: r for r in recs})
+        kit.log(f"C08 replay: recorded {json.dumps(recs[0])[:3000]}")
+        kit.log(f"C08 replay: verdicts {vs}")
+        return
     recs = kit.drive("harness.c08", "drive_case", [case], None)
     out.evaluations += sum(sum(1 for r in rec["res"] if r["r"] != "na") for rec in recs)
     vs = judge(out, recs, wd)
